@@ -278,6 +278,61 @@ class LoadParametersTail(Spec):
         return res
 
 
+class ObsModelChoice(Spec):
+    """TimeReparametrizedModel.__init__, the statements that choose the observation model (from `dimension = kwargs.get(...)` to the
+    if / elif / else that fills kwargs["obs_models"]; dropped: the super().__init__ call and the source-dimension validation after
+    them): the observation model REQUESTED by the caller -- a name, a {"y": name} dictionary as written in a saved file, or a
+    list of names -- is the one that is built, whatever the number of features; only when none is requested the default is chosen
+    (scalar Gaussian when the dimension is unknown, diagonal Gaussian otherwise); the dimension handed to the factory is the number of
+    features when features are given, else the `dimension` argument."""
+    target = "leaspy.models.time_reparametrized:TimeReparametrizedModel.__init__"
+    fragment = (lambda t: t.startswith("dimension = kwargs.get("), lambda t: t.startswith("if isinstance(observation_models, (list, tuple))"))
+
+    REQ = {"none": None, "name": "bernoulli", "saved": {"y": "bernoulli"}, "saved-gaussian": {"y": "gaussian-diagonal"}, "list": ["gaussian-scalar"]}
+    DIMS = {"unknown": {}, "dimension=1": {"dimension": 1}, "dimension=3": {"dimension": 3}, "one feature": {"features": ["y"]},
+            "three features": {"features": ["a", "b", "c"], "dimension": 3}}
+
+    def configs(self):
+        return [dict(requested=r, dims=d) for r in self.REQ for d in self.DIMS]
+
+    def setup(self, cx, cfg):
+        from pyvc.models import SymCallable
+        import copy as _copy
+        kwargs = dict(_copy.deepcopy(self.DIMS[cfg["dims"]]))
+        if self.REQ[cfg["requested"]] is not None:
+            kwargs["obs_models"] = _copy.deepcopy(self.REQ[cfg["requested"]])
+        calls = []
+
+        def factory(it_, model, **kw):
+            calls.append((model, dict(kw)))
+            return ("built", len(calls))
+        env = {"self": SymObj(object, {}, label="model"), "name": "logistic", "source_dimension": None, "kwargs": kwargs,
+               "observation_model_factory": SymCallable(factory, "observation_model_factory")}
+        return dict(env=env, kwargs=kwargs, calls=calls)
+
+    def post(self, cx, st, out):
+        cfg, calls = st["cfg"], st["calls"]
+        dims = self.DIMS[cfg["dims"]]
+        dim = len(dims["features"]) if "features" in dims else dims.get("dimension")
+        req = self.REQ[cfg["requested"]]
+        if req is None:
+            want = ["gaussian-scalar" if dim is None else "gaussian-diagonal"]
+        elif isinstance(req, dict):
+            want = [req["y"]]
+        elif isinstance(req, list):
+            want = list(req)
+        else:
+            want = [req]
+        kw = out.value.get("kwargs")
+        res = [("the observation model(s) built are the requested one(s) (the documented default when none is requested)",
+                z3.BoolVal([c[0] for c in calls] == want)),
+               ("kwargs['obs_models'] is the tuple of what the factory returned, in order",
+                z3.BoolVal(isinstance(kw, dict) and kw.get("obs_models") == tuple(("built", k + 1) for k in range(len(want)))))]
+        if not isinstance(req, list):
+            res.append(("the factory receives the number of features as dimension", z3.BoolVal(all(c[1].get("dimension", "absent") == dim for c in calls))))
+        return res
+
+
 # ------------------------------------------------------------------------------------------------------------------
 class ModelSettingsInit(Spec):
     """ModelSettings(dict): LeaspyModelInputError iff 'name', 'parameters' or 'leaspy_version' is missing; otherwise name is the
@@ -364,7 +419,7 @@ class BaseToDict(Spec):
         return res
 
 
-UNITS = [PriorModeInit(), PutPopulation(), FitEnd(), LoadParametersTail(), ModelSettingsInit(), BaseToDict()]
+UNITS = [PriorModeInit(), PutPopulation(), FitEnd(), LoadParametersTail(), ObsModelChoice(), ModelSettingsInit(), BaseToDict()]
 CALLEES = [SetProbe(), GetProbe(), CloneProbe(), PutPopProbe()]
 ASSUMPTIONS = ["C12: the model's `parameters` / `hyperparameters` properties are read through a ghost model object (their definition -- the state's values of "
                "the ModelParameter / Hyperparameter variables -- is the stand-in's business)",
